@@ -56,6 +56,8 @@ def _gen_case_a(seed: int, tier: str, index: int) -> Dict[str, Any]:
     rng.shuffle(plan)
     cfg = {"snapshot": snap, "net": {"lat_min": 0.001, "lat_max": 0.02}, "loop": {"cost_small_p": 0.2, "cost_small_max": 0.001},
            "tables": None}
+    if rng.random() < 0.25:
+        cfg["loop"].update(wall_jump_p=0.002, wall_jump_max=rng.choice([5.0, 3600.0, 86400.0]))      # the wall clock steps; monotonic time does not
     if rng.random() < 0.3:
         from sim.system import draw_firmware
 
